@@ -412,7 +412,7 @@ def run_harness(h, logdir, seed=0):
     return r
 
 
-def kani_playback_test(h, logdir):
+def kani_playback_test(h, logdir, prop=None):
     """Ask Kani itself (through kani-driver, with traces) for a concrete playback test of a
     failing harness.  Only used after CBMC reported a failure."""
     stem = h.key.replace("::", "__").replace(":", "_")
@@ -436,6 +436,9 @@ def kani_playback_test(h, logdir):
         cmd += ["--max-field-sensitivity-array-size", str(h.fs)]
     if uset:
         cmd += ["--unwindset", ",".join(uset)]
+    if prop:
+        # restrict CBMC to the failing property: one trace instead of one per reachability witness
+        cmd += ["--property", prop]
     rc, killed, secs, peak = _run_watched(cmd, crate, max(h.timeout * 4, 1200), log, max(h.mem_gb * 4, 24))
     return parse_playback(open(log, errors="replace").read()), log
 
